@@ -232,6 +232,8 @@ def info_of_spec(fs):
             i.coordvals[v['name']] = [float(x) for x in v['data']]
     if route.startswith('disk'):
         i.coords = tuple(k for k in i.dims if k in i.vars)
+    elif fs.get('coordkeys') and route in ('create', 'from_ncf'):
+        i.coords = tuple(fs['coordkeys'])
     return i
 
 
@@ -327,6 +329,52 @@ def close_all(handles):
     gc.collect()
 
 
+def build_packed(fs, keep=None):
+    """disk-backed receiver (class netcdf) written with plain netCDF4: a
+    packed variable T (int16 + scale_factor/add_offset, with or without
+    _FillValue and missing cells), a masked float variable P, a coordinate x
+    and optionally a CF time variable"""
+    import netCDF4
+    from PseudoNetCDF import pncopen
+    from . import libstate
+    nt, nx = fs['shape']
+    path = libstate.scratch_path('.nc')
+    ds = netCDF4.Dataset(path, 'w', format=fs['fmt'])
+    try:
+        ds.title = 'packed'
+        ds.createDimension('time', None if fs.get('unlimited') else nt)
+        ds.createDimension('x', nx)
+        x = ds.createVariable('x', 'f8', ('x',))
+        x.units = 'm'
+        x[:] = np.array(fs['x'], dtype='f8')
+        if fs.get('time'):
+            t = ds.createVariable('time', 'f8', ('time',))
+            t.units = 'hours since 2000-01-01 00:00:00'
+            t[0:nt] = np.array(fs['tvals'], dtype='f8')
+        kw = {}
+        if fs.get('has_fill'):
+            kw['fill_value'] = np.int16(fs['fill'])
+        v = ds.createVariable('T', 'i2', ('time', 'x'), **kw)
+        v.set_auto_maskandscale(False)
+        if fs.get('scale') is not None:
+            v.scale_factor = np.float32(fs['scale'])
+        if fs.get('offset') is not None:
+            v.add_offset = np.float32(fs['offset'])
+        v.units = 'K'
+        v[0:nt] = np.array(fs['raw'], dtype='i2').reshape(nt, nx)
+        pv = ds.createVariable('P', 'f4', ('time', 'x'), fill_value=-999.)
+        pv.units = 'Pa'
+        pv[0:nt] = np.ma.masked_array(
+            np.array(fs['p'], dtype='f4').reshape(nt, nx),
+            mask=np.array(fs['pmask'], dtype=bool).reshape(nt, nx))
+    finally:
+        ds.close()
+    f = pncopen(path, format='netcdf')
+    if keep is not None:
+        keep.append(f)
+    return f
+
+
 def build(fs, keep=None):
     """library object for a spec (FileSpec with optional 'route', or
     IoapiSpec).  Disk routes register what must be released in `keep`."""
@@ -343,12 +391,19 @@ def build(fs, keep=None):
         if keep is not None:
             keep.append(f)
         return f
+    if fs.get('kind') == 'packed':
+        return build_packed(fs, keep)
     route = fs.get('route', 'create')
     f0 = S.build_file(fs)
     if route == 'create':
+        if fs.get('coordkeys'):
+            f0.setCoords(list(fs['coordkeys']))
         return f0
     if route == 'from_ncf':
-        return PseudoNetCDFFile.from_ncf(f0)
+        f = PseudoNetCDFFile.from_ncf(f0)
+        if fs.get('coordkeys'):
+            f.setCoords(list(fs['coordkeys']))
+        return f
     if route == 'from_ncvs':
         return PseudoNetCDFFile.from_ncvs(
             **OD((k, v) for k, v in f0.variables.items()))
@@ -384,6 +439,17 @@ def generic_specs(draw, char=False, routes=ROUTES, **opts):
                                dtype=draw(st.sampled_from(['f8', 'f4'])),
                                data=vals, mask=None, fill=None, attrs={},
                                coord=True))
+    # coordinates declared through setCoords (in-memory routes): 1-D
+    # coordinate variables and/or arbitrary (2-D, masked) variables; they are
+    # excluded from arithmetic and ride along in subsetVariables/eval
+    if not fs['route'].startswith('disk') and fs['route'] != 'from_ncvs' \
+            and draw(st.integers(0, 2)) == 0:
+        names = [v['name'] for v in fs['vars']]
+        pref = [v['name'] for v in fs['vars'] if v.get('coord') or
+                v.get('mask') is not None or len(v['dims']) >= 2]
+        k = draw(st.integers(1, min(2, len(names))))
+        fs['coordkeys'] = sorted(set(
+            draw(st.permutations(pref + names))[:k]))
     return fs
 
 
